@@ -684,7 +684,7 @@ End Generic.
 
 (* ---------- text *)
 Definition text_decode (b : bytes) : res (list str) :=
-  Ok (splitlines (universal_newlines (utf8_decode b))).
+  Ok (splitlines (utf8_decode b)).
 
 Lemma read_text_as_decode : forall f expr minP,
   read_text decompress f expr minP
@@ -707,7 +707,7 @@ Lemma text_decode_payload : forall xs, good_lines xs -> text_decode (text_payloa
 Proof.
   intros xs [Hb Hs]. unfold text_decode, text_payload.
   rewrite utf8_roundtrip by (apply scalar_lines; exact Hs).
-  rewrite splitlines_unl, splitlines_join by exact Hb. reflexivity.
+  rewrite splitlines_join by exact Hb. reflexivity.
 Qed.
 
 Theorem text_roundtrip : forall f p parts minP,
